@@ -208,6 +208,37 @@ func (k *kind) isNaN(v parquet.Value) bool {
 	return f != f
 }
 
+// normZero erases the sign of floating point zeros in an oracle answer: -0 and
+// +0 are equal in the column order and the vectorised min/max kernels keep
+// either of them, so the correspondence is stated up to the sign of zero (the
+// predicates still require the stored bound to be one of the page's values).
+func (k *kind) normZero(s string) string {
+	if !k.Float {
+		return s
+	}
+	neg := "80000000"
+	if k.Width == 8 {
+		neg = "8000000000000000"
+	}
+	f := func(r rune) bool { return r == ',' || r == ':' || r == '|' }
+	var sb strings.Builder
+	start := 0
+	for i, r := range s + "|" {
+		if f(r) {
+			t := s[start:i]
+			if t == neg {
+				t = "0"
+			}
+			sb.WriteString(t)
+			if i < len(s) {
+				sb.WriteRune(r)
+			}
+			start = i + 1
+		}
+	}
+	return sb.String()
+}
+
 func (k *kind) fixedSize() int {
 	if k.Typ.Kind() == parquet.FixedLenByteArray {
 		return k.Typ.Length()
@@ -379,7 +410,7 @@ func idxCheck(c *core.Ctx, cs *idxCase) bool {
 	req := idxRequest(k, cs)
 	want := c.Ask(req)
 	got := canonIndex(k, &ci)
-	if c.HasOracle() && want != got {
+	if c.HasOracle() && k.normZero(want) != k.normZero(got) {
 		if ok {
 			c.Mismatch("corr:C05.index", req, got, want, cs)
 		}
@@ -627,7 +658,7 @@ func boundsCheck(c *core.Ctx, cs *boundsCase) bool {
 	if has {
 		got = k.tok(mn) + ":" + k.tok(mx)
 	}
-	if want := c.Ask(req); c.HasOracle() && want != got {
+	if want := c.Ask(req); c.HasOracle() && k.normZero(want) != k.normZero(got) {
 		c.Mismatch("corr:C05.bounds", req, got, want, cs)
 		return false
 	}
@@ -1093,7 +1124,7 @@ func checkFile(c *core.Ctx, fc *fcase, data []byte, label string) bool {
 							cmd = "c05.dictbounds "
 						}
 						req := cmd + k.Model + " " + strings.Join(toks, ",")
-						if want, got := c.Ask(req), k.tok(mn)+":"+k.tok(mx); want != got {
+						if want, got := c.Ask(req), k.tok(mn)+":"+k.tok(mx); k.normZero(want) != k.normZero(got) {
 							c.Mismatch("corr:C05.page_stats", req, got, want, fc)
 							ok = false
 						}
@@ -1140,7 +1171,7 @@ func checkFile(c *core.Ctx, fc *fcase, data []byte, label string) bool {
 					}
 					req := "c05.chunk " + k.Model + " " + strings.Join(ps, ",")
 					got := fmt.Sprintf("%x|%x|%s:%s", cm.NumValues, fcc.NullCount(), k.tok(mn), k.tok(mx))
-					if want := c.Ask(req); want != got {
+					if want := c.Ask(req); k.normZero(want) != k.normZero(got) {
 						c.Mismatch("corr:C05.chunk_stats", req, got, want, fc)
 						ok = false
 					}
@@ -1293,7 +1324,7 @@ func checkFile(c *core.Ctx, fc *fcase, data []byte, label string) bool {
 			if c.HasOracle() {
 				lim := fc.Limit
 				req := "c05.index " + k.Model + " " + core.Zs(int64(lim)) + " " + strings.Join(idxPages, ",")
-				if want, got := c.Ask(req), canonIndex(k, raw); want != got && len(idxPages) == np {
+				if want, got := c.Ask(req), canonIndex(k, raw); k.normZero(want) != k.normZero(got) && len(idxPages) == np {
 					c.Mismatch("corr:C05.file_index", req, got, want, fc)
 					ok = false
 				}
@@ -1722,7 +1753,7 @@ func runC05(c *core.Ctx) {
 	c.Vm("Definition iok (x : numkind * list (page_info N) * (list bool * list Z * list N * list N * Z)) : bool := let '(k, ps, (np, nc, mn, mx, o)) := x in let ci := index_num k ps in leqb Bool.eqb (ci_null_pages ci) np && leqb Z.eqb (ci_null_counts ci) nc && leqb N.eqb (ci_min_values ci) mn && leqb N.eqb (ci_max_values ci) mx && (ci_order ci =? o).")
 	c.Vm("Definition tok (x : nat * list N * list N * list N) : bool := let '(l, v, mn, mx) := x in leqb N.eqb (truncate_min l v) mn && leqb N.eqb (truncate_max l v) mx.")
 	c.Vm("Definition mismatches := (filter (fun x => negb (iok x)) icases, filter (fun x => negb (tok x)) tcases).")
-	c.Vm("Definition M := Eval vm_compute in (length icases + length tcases, match mismatches with ([], []) => @nil nat | _ => [1%nat] end).\nPrint M.")
+	c.Vm("Definition M := Eval vm_compute in ((length icases + length tcases)%nat, match mismatches with ([], []) => @nil nat | _ => [1%nat] end).\nPrint M.")
 	c.Res.VmCases = len(vmIdx) + len(vmTrunc)
 }
 
